@@ -290,6 +290,18 @@ impl Response {
     pub fn verif_charset(&self) -> &'static str {
         self.reader.verif_charset()
     }
+
+    /// `BufRead::fill_buf` of the body reader underneath (see `ResponseReader::verif_fill_buf`).
+    #[doc(hidden)]
+    pub fn verif_fill_buf(&mut self) -> Option<io::Result<Vec<u8>>> {
+        self.reader.verif_fill_buf()
+    }
+
+    /// `BufRead::consume` of the body reader underneath.
+    #[doc(hidden)]
+    pub fn verif_consume(&mut self, amt: usize) {
+        self.reader.verif_consume(amt)
+    }
 }
 
 #[test]
